@@ -155,7 +155,9 @@ func (r *Reconciler) commitChange(ctx context.Context, transaction *configapi.Tr
 		}
 
 		if configuration.Committed.Target != transaction.ID.Index {
-			if configuration.Committed.Index != configuration.Committed.Target {
+			// Wait while another change is being committed (target ahead of index). A target behind the index is
+			// what a rollback leaves behind; whether that rollback is done is checked below.
+			if configuration.Committed.Target > configuration.Committed.Index {
 				return controller.Result{}, false, nil
 			}
 
